@@ -11,6 +11,7 @@
 pub mod rt;
 pub mod sfnt;
 pub mod gen;
+pub mod model;
 pub mod props;
 
 use rt::*;
